@@ -1,6 +1,7 @@
 package main
 
 import (
+	"go/token"
 	"fmt"
 	"sort"
 	"strings"
@@ -99,6 +100,7 @@ func init() {
 		c.needFixture("no-underflow")
 		c16CancelAndGates(c)
 		c16MarkerWithHistory(c)
+		c16BloomWindowAndScratch(c)
 
 		// floor-first
 		if pu := p.Func("pruner", "Pruner", "pruneUpto"); pu == nil {
@@ -554,5 +556,65 @@ func c16MarkerWithHistory(c *Ctx) {
 	}
 	if n < 2 {
 		c.und("marker-with-history", "pruneHashKeyedUpto", p.Pos(fnPos(f)), fmt.Sprintf("only %d batch commits found", n))
+	}
+}
+
+// c16BloomWindowAndScratch: (bloom-window-floor) pruning keeps the aggregated bloom filter of the window the floor falls
+// into: the first window kept starts at floor − floor % 8192 (aligned down from the floor itself); (scratch-wiped-last) the
+// history-pruning migration wipes its scratch namespace only in its final clean-up — between the restorer's wipe of the live
+// history and the end of the restore, the scratch copy is the only copy of the retained blocks' history.
+func c16BloomWindowAndScratch(c *Ctx) {
+	p := c.P
+	if f := p.Func("pruner", "", "pruneAggregatedBloomFiltersUpto"); f != nil {
+		n := 0
+		var last *Site
+		for _, s := range sitesOf(f) {
+			s := s
+			if strings.HasSuffix(s.CalleeName(), "AggregatedBloomFilterKey") {
+				n++
+				last = &s
+			}
+		}
+		ok := false
+		why := "end key not found"
+		if last != nil {
+			from := stripConv(last.Args()[0])
+			if b, isB := from.(*ssa.BinOp); isB && b.Op == token.SUB {
+				if rb, isR := stripConv(b.Y).(*ssa.BinOp); isR && rb.Op == token.REM && sameVal(rb.X, b.X) {
+					if _, isPar := stripConv(b.X).(*ssa.Parameter); isPar {
+						k, _ := constUint(stripConv(rb.Y))
+						ok = k == winN
+					}
+				}
+			}
+			why = term(last.Args()[0])
+		}
+		c.check(ok && n >= 2, "bloom-window-floor", "pruneAggregatedBloomFiltersUpto: first window kept", p.Pos(fnPos(f)), "starts at end − end % 8192 (the window containing the floor is kept)", "the range delete of aggregated bloom filters ends at "+why+" instead of the floor aligned down to its window: for an unaligned floor the filter of the floor's own window is deleted although its blocks are retained, and event queries over them fail")
+	} else {
+		c.und("bloom-window-floor", "pruner.pruneAggregatedBloomFiltersUpto", "", "anchor not found")
+	}
+	ws := p.Func("migration/historyprunner", "", "wipeScratchSpace")
+	if ws == nil {
+		c.und("scratch-wiped-last", "historyprunner.wipeScratchSpace", "", "anchor not found")
+		return
+	}
+	n := 0
+	for _, s := range p.callersOf(ws) {
+		fn := rootOf(s.Instr.Parent())
+		n++
+		// allowed: the final clean-up step only (after the restorer ran): the caller must also be the one that reports
+		// completion — identified as the function that calls runRestorer before it, or a function only reachable after it
+		okc := false
+		if fn.Name() == "runRestorer" {
+			// inside the restorer: only once the restore pipeline finished the whole range without error
+			d := p.mustHoldAt(s.Instr)
+			o1, _ := everyDisjunctHas(d, []string{"^!", " <= chainHeight)"}, []string{" > chainHeight)"})
+			o2, _ := everyDisjunctHas(d, []string{"^!", ".Err != nil)"}, []string{"^!", "#1 != nil)"}, []string{"^!", " != nil)"})
+			okc = o1 && o2
+		}
+		c.check(okc, "scratch-wiped-last", "wipeScratchSpace ← "+qname(fn), p.Pos(s.Pos()), "only inside the restorer, after it restored the whole range without error", "the scratch namespace is wiped from "+qname(fn)+", before the restore is known to be complete: after a non-graceful abort in the restore phase the scratch copy is the only copy of the retained history, and a fresh start deletes it")
+	}
+	if n == 0 {
+		c.und("scratch-wiped-last", "wipeScratchSpace callers", "", "no caller found")
 	}
 }
